@@ -20,6 +20,12 @@
     chain <n> <name>                    TensorChain::from over the top n views (array / tuple)
                                         every constructor: → ok shape=<shape> | reject
                                         (on reject the stack is unchanged)
+    set_names <names>                   TensorRename::set_names on the top (a TensorRename)      → ok shape=<shape> | reject
+                                        (on reject the surviving view is the old one)
+    get_names                           TensorRename::get_names                  → names=<names>
+    swap_source                         std::mem::swap(top.source_ref_mut(), &mut second): the top
+                                        (a TensorRename / TensorReverse) now looks at the second
+                                        view, the old source takes its place     → ok shape=<shape>
     shape                               view_shape of the top                    → shape=<shape>
     get <idx>                           get_reference / _mut / _unchecked(_mut)  → some(<leaf>:<offset>) | none
     set <idx>                           write a sentinel, scan the leaves        → changed=<leaf>:<offset> | none
@@ -231,6 +237,34 @@ def step (s : State) (toks : List String) : State × String :=
           if others.any (fun o => o.shape.length != first.shape.length) then none
           else some (View.mkChain sources along)
     | none => (s, "bad-op")
+  | "set_names" :: namesS :: _ =>
+    let names := parseNames namesS
+    match s.stack with
+    | (.rename src old) :: rest =>
+      if names.length ≠ (View.rename src old).shape.length then (s, "skip") else
+      match (View.rename src old).setNames names with
+      | (v, .ok _) => ({ s with stack := v :: rest }, okShape v)
+      | (v, .panic .explicit) => ({ s with stack := v :: rest }, "reject")
+      | (v, .panic k) => ({ s with stack := v :: rest }, s!"panic({k})")
+    | _ => (s, "skip")
+  | "get_names" :: _ =>
+    match s.stack with
+    | v :: _ =>
+      match v.getNames with
+      | some names => (s, s!"names={showLayout.showNames names}")
+      | none => (s, "skip")
+    | [] => (s, "skip")
+  | "swap_source" :: _ =>
+    match s.stack with
+    | top :: second :: rest =>
+      match top.sourceOf with
+      | some src =>
+        if src.shape.length ≠ second.shape.length then (s, "skip")
+        else
+          let v := top.replaceSource second
+          ({ s with stack := v :: src :: rest }, okShape v)
+      | none => (s, "skip")
+    | _ => (s, "skip")
   | "shape" :: _ =>
     match s.stack with
     | v :: _ => (s, s!"shape={showShape v.shape}")
